@@ -6,6 +6,7 @@ import (
 	"go/token"
 	"go/types"
 	"regexp"
+	"sort"
 	"strings"
 
 	"golang.org/x/tools/go/packages"
@@ -43,6 +44,9 @@ func init() {
 			"(R19.3 = R20.4) only destinations and backups are mutated; (R19.4) the bundle separator \";\\n\" is passed exactly under the JavaScript media type test; (R19.5 = R20.5) a file minified onto itself leaves no backup behind because the backup's creation and removal names agree.",
 		Run: runC19,
 	})
+	mutant(&Mutant{Name: "c19-extension-mapped-to-unregistered-type", Property: "C19", File: "cmd/minify/main.go",
+		Old: "\"rss\":         \"application/rss+xml\",", New: "\"rss\":         \"application/rss-xml\",",
+		Rule: "R19.15", Construct: "extMap[rss]"})
 	mutant(&Mutant{Name: "c19-watch-map-shares-loop-variable", Property: "C19", File: "cmd/minify/main.go",
 		Old: "\t\t\t\ttask := task // one variable per task, the map keeps its address\n", New: "",
 		Rule: "R19.9", Construct: "&task of the range loop"})
@@ -1169,6 +1173,7 @@ func runC19(c *Ctx) {
 	c.r208(x, "R19.11")
 	c.r1912(x)
 	c.r209(x, "R19.14")
+	c.r1915(x)
 	// a bundle written onto one of its inputs: the input is truncated by the open before the lazy reader gets to it,
 	// so the output silently lacks that file — the ordering rule of C20 is a condition of "the library's output" too
 	c.alsoUnder(map[string]string{"R20.1": "R19.13"}, nil, func() { c.r201(x) })
@@ -1983,4 +1988,88 @@ func (c *Ctx) r1912(x *cliCtx) {
 		ok = g.Dominates(dstar.n, star.n)
 	}
 	c.R.Check(ok, rule, "main.compilePattern/`**` replaced before `*`", c.pos(dstar.n.Ast()), "longest wildcard first", "the single star is translated first (or listed first in the replacer): `**` turns into two name wildcards and stops at a directory separator")
+}
+
+// R19.15: every extension the CLI knows selects a minifier the CLI registers.
+func (c *Ctx) r1915(x *cliCtx) {
+	const rule = "R19.15"
+	c.R.Rule(rule, "cmd/minify maps file extensions to media types (extMap) and registers minifiers under media types and patterns in run(). A file is selected by its extension and minified by the lookup of the mapped type: every value of extMap must be matched by a registration — a literal of m.Add, or a constant pattern of m.AddRegexp (evaluated with package regexp). A type nothing is registered for (`application/xhtml-xml`, a typo of `+xml`) makes every such file fail with `minifier does not exist for mimetype` after it has been selected")
+	info := x.info
+	v, _, err := c.Ev.PackageVar(x.pk, "extMap")
+	if err != nil {
+		c.R.Unres(rule, "main.extMap", "-", "extMap could not be evaluated: "+err.Error())
+		return
+	}
+	var pairs [][2]string
+	if mp, ok := v.(*eval.Map); ok {
+		for _, e := range mp.Entries {
+			k, okk := e.Key.(string)
+			val, okv := e.Value.(string)
+			if okk && okv {
+				pairs = append(pairs, [2]string{k, val})
+			}
+		}
+	}
+	if len(pairs) == 0 {
+		c.R.Unres(rule, "main.extMap", "-", fmt.Sprintf("extMap evaluated to %T", v))
+		return
+	}
+	sort.Slice(pairs, func(i, j int) bool { return pairs[i][0] < pairs[j][0] })
+	var patternOf func(e ast.Expr) (string, bool)
+	patternOf = func(e ast.Expr) (string, bool) {
+		e = ast.Unparen(e)
+		if call, ok := e.(*ast.CallExpr); ok && (calleeName(info, call) == "regexp.MustCompile" || calleeName(info, call) == "regexp.MustCompilePOSIX") && len(call.Args) == 1 {
+			if v, err := c.Ev.Expr(x.pk, call.Args[0]); err == nil {
+				if sv, isS := v.(string); isS {
+					return sv, true
+				}
+			}
+			return "", false
+		}
+		if id, ok := e.(*ast.Ident); ok {
+			if v, isVar := info.Uses[id].(*types.Var); isVar && v.Pkg() == x.pk.Types && v.Parent() == x.pk.Types.Scope() {
+				if init := load.VarInit(x.pk, id.Name); init != nil && !c.assignedAnywhere(v) {
+					return patternOf(init)
+				}
+			}
+		}
+		return "", false
+	}
+	literals := map[string]bool{}
+	var patterns []*regexp.Regexp
+	unknown := 0
+	for _, fd := range load.FuncDecls(x.pk) {
+		for _, call := range findCalls(info, fd.Body, true, load.Mod+".(M).Add", load.Mod+".(M).AddFunc", load.Mod+".(M).AddCmd") {
+			if v, err := c.Ev.Expr(x.pk, call.Args[0]); err == nil {
+				if sv, isS := v.(string); isS {
+					literals[sv] = true
+					continue
+				}
+			}
+			unknown++
+		}
+		for _, call := range findCalls(info, fd.Body, true, load.Mod+".(M).AddRegexp", load.Mod+".(M).AddFuncRegexp", load.Mod+".(M).AddCmdRegexp") {
+			if p, ok := patternOf(call.Args[0]); ok {
+				if re, err := regexp.Compile(p); err == nil {
+					patterns = append(patterns, re)
+					continue
+				}
+			}
+			unknown++
+		}
+	}
+	if len(literals)+len(patterns) < 6 {
+		c.R.Unres(rule, "main.run/registrations", c.pos(x.fd), fmt.Sprintf("only %d literal and %d pattern registrations with constant arguments found", len(literals), len(patterns)))
+		return
+	}
+	for _, pr := range pairs {
+		matched := literals[pr[1]]
+		for _, re := range patterns {
+			if re.MatchString(pr[1]) {
+				matched = true
+			}
+		}
+		c.R.Check(matched || unknown > 0, rule, "main.extMap["+pr[0]+"] selects a registered minifier", "-", pr[1], "files with the extension ."+pr[0]+" are given the media type "+pr[1]+", for which run() registers no minifier (no m.Add literal, no m.AddRegexp pattern matches): every such file is selected and then fails")
+	}
+	c.R.Floor(rule, "extMap entries", len(pairs), 15)
 }
